@@ -17,7 +17,7 @@ from . import common
 from .common import log, ToolError
 
 EXE = "pvh_pipeline"
-RUN_FORMAT = 12     # bump when the way cases are assembled / rendered in this file changes
+RUN_FORMAT = 13     # bump when the way cases are assembled / rendered in this file changes
 THREADS = os.environ.get("PVH_THREADS", "6")
 TLC_WORKERS = int(os.environ.get("PIPELINE_TLC_WORKERS", "4"))
 
@@ -463,6 +463,31 @@ def _render_chain(cell, exp):
     return text, fault
 
 
+def _render_rettype(cell, exp):
+    what, form, order = cell["what"], cell["form"], cell["order"]
+    ty = "[4]i32" if what == "array" else "bool"
+    head = "pub %sfn make() -> " % ("extern " if what == "externbool" else "")
+    lib = "// the library\n" + head
+    start = len(lib)
+    lib += ty
+    end = len(lib)
+    line = lib.count("\n") + 1
+    if form == "head":
+        lib += ";\n"
+    elif what == "array":
+        lib += "\n{\n\tvar a: [4]i32 = [1, 2, 3, 4];\n\treturn: a\n}\n"
+    else:
+        lib += "\n{\n\treturn: true\n}\n"
+    lib += "pub fn other(x: i32) -> i32\n{\n\treturn: x + 1\n}\n"
+    use = "\tvar r: i32 = other(1);\n" if order == "main-uses" else "\tvar r: i32 = 1;\n"
+    main = 'import "lib.pn";\n\nfn main() -> i32\n{\n%s\treturn: r\n}\n' % use
+    libm, mainm = {"name": "lib.pn", "src": lib}, {"name": "main.pn", "src": main}
+    mods = {"single": [libm], "lib-first": [libm, mainm]}.get(order, [mainm, libm])
+    fault = {"m": 1 + mods.index(libm), "code": exp["code"], "file": "lib.pn", "start": start, "end": end, "line": line, "crlf": False,
+             "parts": [{"start": start, "end": end, "whole": False}]}
+    return mods, fault
+
+
 def render_shape(case, idx):
     """A cell of spec/PipelineShapes.tla -> source text"""
     cell, exp = case["cell"], case["expect"]
@@ -480,6 +505,9 @@ def render_shape(case, idx):
             raise ToolError("size cell %s rendered as %d bytes" % (json.dumps(cell), len(src.encode())))
         mods = [{"name": "size.pn", "src": src}]
         origin = "size %s/%d" % (cell["pad"], cell["size"])
+    elif fam == "rettype":
+        mods, fault = _render_rettype(cell, exp)
+        origin = "rettype %s/%s/%s" % (cell["what"], cell["form"], cell["order"])
     elif fam == "chain":
         src, fault = _render_chain(cell, exp)
         mods = [{"name": "chain.pn", "src": src}]
@@ -492,7 +520,7 @@ def render_shape(case, idx):
         origin = "sym %s/%s/%s%s" % (cell["flags"].replace(" ", "+") or "private", cell["kind"], cell["place"],
                                      "" if cell.get("twin", "none") == "none" else "/twin=" + cell["twin"].replace(" ", "+"))
     out = {"id": "shape%d" % idx, "kind": "shape:" + fam, "wasm": wasm, "mods": mods, "origin": origin}
-    if fam == "chain":
+    if fam in ("chain", "rettype"):
         out["fault"] = fault
     if exp["t"] != "free":
         out["expect"] = {"t": exp["t"]}
